@@ -60,6 +60,15 @@ void h_spb_await_resume(void) { SPB *p; spb_await_resume(p); __CPROVER_assert(0,
 #ifdef CV_HAS_spi_ctor_from
 void h_spi_ctor_from(void)  { SPI *p; SP *q; cv_i32 v; spi_ctor_from(p, q, v); __CPROVER_assert(0, "SENTINEL reachable"); }
 #endif
+#ifdef CV_HAS_spm_get
+void h_spm_get(void)        { SPM *p; MVT *r; spm_get(r, p); __CPROVER_assert(0, "SENTINEL reachable"); }
+#endif
+#ifdef CV_HAS_spm_cget
+void h_spm_cget(void)       { SPM *p; MVT *r; spm_cget(r, p); __CPROVER_assert(0, "SENTINEL reachable"); }
+#endif
+#ifdef CV_HAS_spm_await_resume
+void h_spm_await_resume(void) { SPM *p; spm_await_resume(p); __CPROVER_assert(0, "SENTINEL reachable"); }
+#endif
 #ifdef CV_HAS_spi_get
 void h_spi_get(void)        { SPI *p; spi_get(p); __CPROVER_assert(0, "SENTINEL reachable"); }
 #endif
